@@ -5,6 +5,7 @@ against an accumulator model phi += delta.
 """
 
 import contextlib
+import warnings
 import io
 
 import numpy as np
@@ -17,6 +18,7 @@ LEVEL = "exploration"
 BUDGET = {"quick": 4000, "thorough": 250000}
 CHUNK = 50
 RUN_TIMEOUT_S = 1500
+RULE_J = " Fault F1q: between two samples the joint is queried with a non-finite solver iterate (3% of the operations); the samples that follow are judged as before."
 RULE = (
     "seeded histories (5..300 ops) over one Revolute between origin-frame/rigid body, rigid body/rigid body or a Frame with prescribed translation and rotation/rigid body (time advances between queries), "
     "random axis, joint frame, angle0; ops rotate(delta in (-pi/2,pi/2), biased to quadrant boundaries and long "
@@ -25,6 +27,7 @@ RULE = (
     "with random non-unit scale. distinct = (subsystem kind, axis, op-kind set, max forward turns (cap 4), max "
     "backward turns (cap 4), boundary hit, reset quadrant set); non-trivial = at least one completed quadrant change"
 )
+RULE += RULE_J
 COMPONENTS = {
     "real": ["cardillo.constraints.Revolute", "cardillo.discrete.RigidBody", "cardillo.System (assembly)"],
     "stub": [],
@@ -76,7 +79,10 @@ def gen(rng, tier, index):
     lim = HALF_PI - 1e-6
     for _ in range(n):
         x = rng.random()
-        if x < 0.72:
+        if 0.69 <= x < 0.72:
+            # fault: the joint is queried with a diverged solver iterate (non-finite coordinates) between two samples
+            ops.append({"op": "bad_query", "kind": str(rng.choice(["nan_all", "nan_one", "inf"])), "via": str(rng.choice(["l", "angle"]))})
+        elif x < 0.72:
             m = mode if mode != "mixed" else str(rng.choice(["forward", "backward", "random", "boundary"]))
             if m == "exact":
                 d = step * float(rng.choice([1.0, 1.0, 1.0, -1.0])) * (1.0 if len(ops) % 40 < 25 else -1.0)
@@ -292,6 +298,27 @@ def execute(plan, out, log):
             if any(v != vals[0] for v in vals):
                 bad("query_not_idempotent", plan["sub1"], f"op {k}: repeated queries at one configuration returned {vals}")
             out["probes"]["repeated_query"] += 1
+        elif op["op"] == "bad_query":
+            # F1q: whatever the joint answers to a non-finite iterate (the code at hand rejects it), the rejected query
+            # is not a sample of the history - the samples that follow are judged as before
+            q, _, _, _ = rig.config(phi, Rw, tw, scale, t)
+            q = np.array(q, dtype=float)
+            if op["kind"] == "nan_all":
+                q[-7:] = np.nan
+            elif op["kind"] == "nan_one":
+                q[-4 + k % 4] = np.nan
+            else:
+                q[-4 + k % 4] = np.inf
+            out["faults"]["F1q_nonfinite_query"] += 1
+            with warnings.catch_warnings():
+                warnings.simplefilter("ignore")
+                try:
+                    (joint.l if op["via"] == "l" else joint.angle)(t, q)
+                    log.ev("bad_query", k, op["kind"], "answered")
+                    out["probes"]["nonfinite_query_answered"] += 1
+                except Exception as e:
+                    log.ev("bad_query", k, op["kind"], type(e).__name__)
+                    out["probes"]["nonfinite_query_rejected"] += 1
         elif op["op"] == "rate":
             q, A1, A2, e_c = rig.config(phi, Rw, tw, scale, t)
             u2 = np.array(op["u2"])
